@@ -8,6 +8,11 @@ import (
 
 // AssignmentToString returns the string representation of the assignment.
 func AssignmentToString(f *model.Function, a model.Assignment) string {
+	if nest, ok := a.(model.NestStruct); ok {
+		// Its contents may return errors as well: render them with their error checks.
+		return nest.Render(func(c model.Assignment) string { return AssignmentToString(f, c) })
+	}
+
 	var sb strings.Builder
 	sb.WriteString(a.String())
 	if a.RetError() {
